@@ -111,11 +111,11 @@ PENDING = {
 
 # Families added after the first version of each check (appended to the description).
 ADDENDA = {
- "C01": "A quarter of every generated pool runs under an adversarial consistent renaming (same names in different packages, packages sharing a name, blank/missing parameter names), a fifth blank-imports its own library packages; result kinds include funcs with (variadic) parameters, channels of channels, unicode and one-rune type names.",
- "C02": "Added families: interface / concrete type / its input requested in every order (bind-order), a struct and its pointer type from two different sources with a field provider over one of them (counterparts), a parameter named like a later local of an assignable type, twin packages with same-named values; a compile error 'cannot use X as T in argument/struct literal/return' in wire_gen.go also counts as wrong wiring.",
+ "C01": "A quarter of every generated pool runs under an adversarial consistent renaming (same names in different packages, packages sharing a name, blank/missing parameter names), a fifth blank-imports its own library packages; result kinds include funcs with (variadic) parameters, channels of channels, unicode and one-rune type names; probes with providers living in internal packages.",
+ "C02": "Added families: interface / concrete type / its input requested in every order (bind-order), a struct and its pointer type from two different sources with a field provider over one of them (counterparts), a parameter named like a later local of an assignable type, twin packages with same-named values; a compile error 'cannot use X as T in argument/struct literal/return' in wire_gen.go also counts as wrong wiring; zero-call injectors with two assignable arguments (pass-through-args); two packages sharing package clause and member names (twin packages).",
  "C03": "Added: the full product of provider result shapes over chains (links through bindings and struct fields, providers in two packages), the result-kind matrix (zero value per kind, judged on the typed result variable so a typed nil in an interface is non-zero).",
  "C04": "Added: the full product of provider result shapes over chains, injectors without an error result and with a single cleanup.",
- "C05": "Added source kind: a second binding to the same concrete type; placements inline / two levels / inline siblings; the same set listed twice.",
+ "C05": "Added source kind: a second binding to the same concrete type; placements inline / two levels / inline siblings; the same set listed twice; class SPELL: one type written in two spellings ([]byte/[]uint8, rune/int32, any/interface{}).",
  "C06": "Added near-miss rows: FieldsOf parent counterparts, variadic providers whose slice type has no source (nothing / element / array / pointer-to-slice provided).",
  "C07": "Every graph family also comes with its sources spread over several set variables (5 layouts incl. sub-sets listed directly in wire.Build); scaling lattices through struct fields, bindings and field providers.",
  "C08": "Added: bind-order family as contributing controls; pass-through injectors (result is a parameter, directly or behind a binding; value only; field of a parameter) x every superfluous kind.",
@@ -123,11 +123,11 @@ ADDENDA = {
  "C10": "Added: a base set shared by 3-4 wrapper sets each adding a different source for one interface; C13's relocation-sensitive value expressions placed in the injector's package and in another package's set.",
  "C11": "Added: bind-order family (executed), order-dependent negatives (legal *C binding first, illegal C binding later), interface-to-interface negatives.",
  "C12": "Added: both forms S and *S of one struct provider in one injector with a provider writing through the pointer (all 24 parameter orders); promoted-field negatives.",
- "C13": "Added: literals with identifier keys, InterfaceValue cases (untyped nil, pointer-only implementers, typed nil; calls/receives = known finding F19), more wrapper productions (slice bounds, selectors/indexes of literals).",
+ "C13": "Added: literals with identifier keys, InterfaceValue cases (untyped nil, pointer-only implementers, typed nil; calls/receives = known finding F19), more wrapper productions (slice bounds, selectors/indexes of literals); non-constant builtin calls must be refused, constant ones accepted; value hazards: internal packages the injector cannot import, predeclared identifiers the injector's package redeclares (refused, or compiled and equal).",
  "C14": "Added families: late imports (struct literal / value variable of a package nothing else names) vs parameters and locals of that name, invented parameter names, parameter/local collisions of assignable types, package name vs directory name (bar in bar2).",
  "C15": "Corpus additions: locals used as literal keys, local consts/types/type parameters named like generated imports, type-switch variables, embedded imported fields, numbered siblings; two injector files; every snippet meets every scheme in the quick tier.",
- "C16": "Added layout: GOPATH with the vendor directory inside the injector package's directory; value types of the same name in two packages plus neighbour programs in the same invocation.",
- "C17": "Added no-injector package variants (blank imports + init; a wireinject-tagged file without injector).",
+ "C16": "Added layout: GOPATH with the vendor directory inside the injector package's directory; value types of the same name in two packages plus neighbour programs in the same invocation, incl. neighbours that import the program's own library packages in both orders.",
+ "C17": "Added no-injector package variants (blank imports + init; a wireinject-tagged file without injector; a directory with only a _test.go file) and bad patterns (missing directory / all files excluded) x 4 commands.",
  "C18": "Seven source variants (one's output a prefix of another's; helpers named like the next variant's import/locals/value variable), damage kinds incl. same-length, whitespace, comment before header, future/ancient mtime; tails regenerating one accepted variant after another.",
  "C19": "Agreement cases: later injectors (second in file / second file / panic form / with parameters) x {missing, need-err, need-cleanup, unused, conflict}; inaccessible values x the four injector result shapes; alias and grouped set variables in show.",
  "C20": "Forms added: long/duplicate name lists, InterfaceValue into the empty interface; the result-kind matrix is judged by the full oracle (positioned diagnostic or output).",
